@@ -6,7 +6,7 @@ from hypothesis import strategies as st
 from hgv import gen
 from hgv.runner import Result, Viol
 from hgv.trace import Trace
-from hgv.worker import HarnessError
+from hgv.worker import HarnessError, Rejected
 
 ID = "C12"
 ASAN_THOROUGH = True   # thorough tier runs against the AddressSanitizer build
@@ -119,7 +119,7 @@ def check(case, ctx) -> Result:
         res.violations.append(Viol("engine_crash", f"worker died {resp.get('signal')} {resp.get('stderr', '')[-500:]}"))
         return res
     if not resp.get("built"):
-        raise HarnessError(f"C12 generator produced a program the tree rejects: {resp.get('error')}")
+        raise Rejected(f"C12 generator produced a program the tree rejects: {resp.get('error')}")
     ivs = intervals(case)
     known = set(range(case["nb"]))
     unmatched = [iv for iv in ivs if iv[0] not in known and not case["has_default"]]
